@@ -48,6 +48,10 @@ class Extra:
         self.fields = fields
 
 
+class Multi(list):
+    """A result that is a sequence of separate values (one register each)."""
+
+
 class Recorder:
     """One trace: SSA registers of real objects + the event log."""
 
@@ -73,7 +77,7 @@ class Recorder:
         self.events.append(ev)
         return len(self.regs)
 
-    def call(self, act: str, fn, args=(), prop=None, targets=(), keep=True, **params):
+    def call(self, act: str, _callable, args=(), prop=None, targets=(), keep=True, **params):
         """Run fn(*objects of args) on the real library; log the event.
         Returns the list of new register numbers (empty when it raised)."""
         objs = [self.obj(a) for a in args]
@@ -84,7 +88,7 @@ class Recorder:
         out = "ret"
         try:
             try:
-                result = fn(*objs)
+                result = _callable(*objs)
             finally:
                 signal.setitimer(signal.ITIMER_REAL, 0)
                 signal.signal(signal.SIGALRM, old)
@@ -97,7 +101,8 @@ class Recorder:
         if isinstance(result, Extra):
             extra, result = result.fields, result.value
         if out == "ret":
-            results = list(result) if isinstance(result, (tuple, list)) and params.get("_multi") else [result]
+            results = list(result) if isinstance(result, Multi) or (
+                isinstance(result, (tuple, list)) and params.get("_multi")) else [result]
             res = [P.project(r) for r in results]
         elif out == "raise":
             results, res = [], [P.project_exception(result)]
@@ -122,8 +127,8 @@ class Recorder:
     def do(self, act: str, args=(), prop=None, targets=(), keep=True, **params):
         """Perform an action of the action table (harness/actions.py)."""
         from . import actions
-        fn = actions.perform(act, params, self.state)
-        return self.call(act, fn, args, prop=prop, targets=targets, keep=keep, **params)
+        todo = actions.perform(act, params, self.state)
+        return self.call(act, todo, args, prop=prop, targets=targets, keep=keep, **params)
 
     def to_json(self) -> dict:
         d = {"id": self.id, "prop": self.prop, "seed": self.seed, "events": self.events}
